@@ -1354,19 +1354,20 @@ type regionCall struct {
 	call ssa.CallInstruction
 	in   *ssa.Function
 	bind map[*ssa.Parameter]ssa.Value
+	via  ssa.CallInstruction // the call in the root function through which a helper was entered (nil in the root)
 }
 
 func (p *Program) regionCalls(fn *ssa.Function) []regionCall {
 	var out []regionCall
 	seen := map[*ssa.Function]bool{}
-	var walk func(g *ssa.Function, bind map[*ssa.Parameter]ssa.Value, depth int)
-	walk = func(g *ssa.Function, bind map[*ssa.Parameter]ssa.Value, depth int) {
+	var walk func(g *ssa.Function, bind map[*ssa.Parameter]ssa.Value, depth int, via ssa.CallInstruction)
+	walk = func(g *ssa.Function, bind map[*ssa.Parameter]ssa.Value, depth int, via ssa.CallInstruction) {
 		if seen[g] || depth > 3 {
 			return
 		}
 		seen[g] = true
 		for _, c := range allCalls(g) {
-			out = append(out, regionCall{c, g, bind})
+			out = append(out, regionCall{c, g, bind, via})
 			h := c.Common().StaticCallee()
 			if h == nil || h.Blocks == nil || !p.InRepo(h) || h.Pkg != fn.Pkg || h == fn {
 				continue
@@ -1380,10 +1381,14 @@ func (p *Program) regionCalls(fn *ssa.Function) []regionCall {
 					nb[prm] = c.Common().Args[i]
 				}
 			}
-			walk(h, nb, depth+1)
+			v := via
+			if v == nil {
+				v = c
+			}
+			walk(h, nb, depth+1, v)
 		}
 	}
-	walk(fn, map[*ssa.Parameter]ssa.Value{}, 0)
+	walk(fn, map[*ssa.Parameter]ssa.Value{}, 0, nil)
 	return out
 }
 
